@@ -200,7 +200,7 @@ namespace Givaro
     ModularBalanced<int64_t>::init(Element& x, const Integer& y) const
     {
         x = static_cast<Element>(y % _p);
-        NORMALISE_HI(x);
+        NORMALISE(x);
         return x;
     }
 
